@@ -581,7 +581,11 @@ fn compare(
                 (-nrm, f.centroid())
             };
             closure += f.area() * n_out;
-            div += f.area() * n_out.dot(cen - gens_proj(&gens, ci, inp));
+            // the centroid of a face of negligible area is meaningless (it is reported as the origin when the
+            // area integral is not positive): such faces are left out of the divergence sum
+            if f.area() > tol_area {
+                div += f.area() * n_out.dot(cen - gens_proj(&gens, ci, inp));
+            }
             area_sum += f.area();
         }
         if closure.length() > 20.0 * tol_area {
@@ -1005,3 +1009,20 @@ pub fn main_replay(args: &[String]) -> i32 {
     0
 }
 
+
+/// Debug helper: print the compact tessellation of one embedded lattice input.
+pub fn main_dump(args: &[String]) -> i32 {
+    let inp = LInput::from_json(&serde_json::from_str::<Value>(&args[0]).unwrap());
+    let h: f64 = args[1].parse().unwrap();
+    let o: Vec<f64> = args[2].split(',').map(|x| x.parse().unwrap()).collect();
+    let emb = Embedding::new(h, [o[0], o[1], o[2]]);
+    let obs = run_library(&inp, &emb, false);
+    let v = obs.vor.unwrap();
+    for (i, c) in v.cells().iter().enumerate() {
+        println!("cell {} vol {:.17e} cen {:?} loc {:?} sr {}", i, c.volume(), c.centroid().to_array(), c.loc().to_array(), c.safety_radius());
+        for f in c.faces(&v) {
+            println!("   face l={} r={:?} shift={:?} area={:.17e} cen={:?} n={:?}", f.left(), f.right(), f.shift().map(|s| s.to_array()), f.area(), f.centroid().to_array(), f.normal().to_array());
+        }
+    }
+    0
+}
